@@ -15,3 +15,7 @@ pub mod lexical;
 
 // 转换 //
 pub mod conversion;
+
+/// Verification hooks (simulator seams), only with `--cfg narsese_verif`
+#[cfg(narsese_verif)]
+pub mod verif_hooks;
